@@ -46,9 +46,29 @@ func e1Obligations(p *Prog, r *Report, rule string, kinds map[string]bool) {
 	r.Count("e1.deferred_unlocks", res.deferUnl)
 }
 
+// Frozen allow-list of blocking operations under a mutex (DESIGN 3.4/E4a).  Each entry
+// names the function, the operation and why it cannot block indefinitely.
+var c12Allow = []allowEntry{
+	{Fn: "protocol/sub.(*pipe).receiver", Match: "chan-send: send on next(range(recv.s.ctxs))#1.recvQ",
+		Reason: "re-send after making room in a buffered queue; only holders of the socket lock send to it (capacity >= 1 is obligation C19.2/E10c)"},
+	{Fn: "protocol/sub.(*context).unsubscribe", Match: "chan-send: send on recv.recvQ",
+		Reason: "re-queues at most as many messages as the old queue held into a fresh queue of the same capacity, under the socket lock"},
+	{Fn: "protocol/sub.(*context).SetOption", Match: "protocol/sub.(*context).unsubscribe",
+		Reason: "calls unsubscribe (see there) with the socket lock held by design"},
+	{Fn: "protocol/xpush.(*socket).sender", Match: "chan-recv: receive from recv.sendQ", Guard: "len(recv.sendQ) != 0",
+		Reason: "receive is guarded by len(sendQ) != 0 under the same lock that every other receiver of sendQ holds"},
+	{Fn: "transport/ipc.(*listener).removeStaleIPC", Match: "net..DialTimeout", NotOS: "windows",
+		Reason: "probe dial to detect a stale socket file, bounded by its 100 ms timeout"},
+	{Fn: "transport/ipc.(*listener).Listen", Match: "transport/ipc.(*listener).removeStaleIPC", NotOS: "windows",
+		Reason: "calls removeStaleIPC (bounded probe dial) while holding the listener lock"},
+}
+
 func runC12(p *Prog, r *Report) {
 	r.Describe("C12.1/E1", "lock typestate: held-at-return, double-lock, callee re-lock, unlock-not-held, inconsistent join")
 	e1Obligations(p, r, "C12.1/E1", map[string]bool{"held-at-return": true, "double-lock": true, "callee-relock": true, "unlock-not-held": true, "join": true})
 	r.Floor("C12.1/E1", "e1.functions_with_lock_ops", 150)
+
+	r.Describe("C12.2/E4", "no blocking operation (channel, select, sleep, network I/O, application callback; direct or through callees) runs while a mutex is held, outside the frozen allow-list")
+	e4UnderLock(p, r, "C12.2/E4", c12Allow)
 	_ = fmt.Sprint
 }
